@@ -185,3 +185,77 @@ pub mod fwd_rename {
         }
     }
 }
+
+/// distinct marker attributes per kind / handler / parameter (C17)
+pub mod fwd_attrs {
+    use super::*;
+
+    pub struct Marked;
+
+    #[entry_points]
+    #[contract]
+    #[sv::msg_attr(instantiate, doc = "marker-instantiate")]
+    #[sv::msg_attr(exec, doc = "marker-exec")]
+    #[sv::msg_attr(exec, derive(PartialOrd))]
+    #[sv::msg_attr(query, doc = "marker-query")]
+    #[sv::msg_attr(query, derive(Eq))]
+    #[sv::msg_attr(sudo, doc = "marker-sudo")]
+    #[sv::msg_attr(migrate, doc = "marker-migrate")]
+    #[sv::msg_attr(migrate, derive(Eq, PartialOrd))]
+    impl Marked {
+        pub fn new() -> Self {
+            Self
+        }
+        #[sv::msg(instantiate)]
+        fn instantiate(&self, _ctx: InstantiateCtx, #[doc = "p-inst"] #[serde(default)] seed: u64) -> StdResult<Response> {
+            Ok(Response::new())
+        }
+        #[sv::msg(migrate)]
+        fn migrate(&self, _ctx: sylvia::ctx::MigrateCtx, #[doc = "p-migrate"] to: u32) -> StdResult<Response> {
+            Ok(Response::new())
+        }
+        #[sv::msg(exec)]
+        #[sv::attr(doc = "v-exec-one")]
+        fn one(&self, _ctx: ExecCtx, #[doc = "p-one-a"] a: u32, b: u32) -> StdResult<Response> {
+            Ok(Response::new())
+        }
+        #[sv::msg(exec)]
+        #[sv::attr(doc = "v-exec-two")]
+        #[sv::attr(doc = "v-exec-two-second")]
+        fn two(&self, _ctx: ExecCtx, a: u32, #[doc = "p-two-b"] #[serde(default)] b: Option<u32>) -> StdResult<Response> {
+            Ok(Response::new())
+        }
+        #[sv::msg(query)]
+        #[sv::attr(doc = "v-query")]
+        fn ask(&self, _ctx: QueryCtx, #[serde(default)] verbose: bool) -> StdResult<Resp> {
+            Ok(Resp { n: 0 })
+        }
+        #[sv::msg(sudo)]
+        #[sv::attr(doc = "v-sudo")]
+        fn force(&self, _ctx: SudoCtx) -> StdResult<Response> {
+            Ok(Response::new())
+        }
+    }
+}
+
+pub mod fwd_attrs_iface {
+    use super::*;
+
+    #[interface]
+    #[sv::custom(msg = sylvia::cw_std::Empty, query = sylvia::cw_std::Empty)]
+    #[sv::msg_attr(exec, doc = "i-marker-exec")]
+    #[sv::msg_attr(query, doc = "i-marker-query")]
+    #[sv::msg_attr(sudo, doc = "i-marker-sudo")]
+    #[sv::msg_attr(sudo, derive(Eq))]
+    pub trait MarkedIface {
+        type Error: From<StdError>;
+        #[sv::msg(exec)]
+        #[sv::attr(doc = "iv-exec")]
+        fn e(&self, ctx: ExecCtx, #[doc = "ip-e"] a: u32) -> Result<Response, Self::Error>;
+        #[sv::msg(query)]
+        fn q(&self, ctx: QueryCtx, #[serde(default)] a: u32) -> Result<Resp, Self::Error>;
+        #[sv::msg(sudo)]
+        #[sv::attr(doc = "iv-sudo")]
+        fn s(&self, ctx: SudoCtx) -> Result<Response, Self::Error>;
+    }
+}
